@@ -309,8 +309,7 @@ proof fn lemma_sched_reliable(t: int)
     assert(sched(t, 1, 1, 1) == sched(t, 1, 1, 0) + ivl(t, 1, 1, 0));
     assert(t * 1 == t);
 }
-//@item! stun_agent :: mod timeout > const DEFAULT_RC
-//@item! stun_agent :: mod timeout > const DEFAULT_RM
+//@consts stun_agent :: mod timeout
 // props: C06
 proof fn lemma_default_constants()
     ensures DEFAULT_RC == 7, DEFAULT_RM == 16,
